@@ -74,6 +74,28 @@ def _cases(draw, tier):
         plain = [m for m in sorted(cfg['instructions']) if m.isidentifier()]
         if plain:
             cfg['general']['registers'] = list(cfg['general'].get('registers') or []) + [draw(st.sampled_from(plain))]
+    if draw(st.integers(0, 5)) == 0:
+        # a large vocabulary (more names than fit one group of whatever size the generator may use internally)
+        want = draw(st.sampled_from([32, 33, 34, 64, 65, 66]))
+        which = draw(st.sampled_from(['instructions', 'registers']))
+        if which == 'instructions':
+            i = 0
+            while len(cfg['instructions']) < want:
+                cfg['instructions']['op%02d' % i] = {'bytecode': {'value': i % 256, 'size': 8}}
+                i += 1
+        else:
+            regs = list(cfg['general'].get('registers') or [])
+            i = 0
+            while len(regs) < want:
+                regs.append('rr%02d' % i)
+                i += 1
+            cfg['general']['registers'] = regs
+    if cfg.get('macros') and draw(st.integers(0, 4)) == 0:
+        # one mnemonic configured twice, in two letter cases (the later entry is the one in force): still one mnemonic
+        plain = [m for m in sorted(cfg['instructions']) if m.isidentifier() and m.lower() == m and m.upper() not in cfg['instructions']]
+        if plain:
+            m = draw(st.sampled_from(plain))
+            cfg['instructions'][m.upper()] = copy.deepcopy(cfg['instructions'][m])
     return {'isa': cfg, 'salt': draw(st.integers(0, 1000)), 'regenerate': draw(st.integers(0, 2)) == 0,
             'verbose': draw(st.sampled_from([0, 0, 0, 1, 3]))}
 
